@@ -129,7 +129,19 @@ def judge(case):
             ox in os_          # the same question is asked once before the move (its answer there may differ)
         except Exception:
             pass
-        ret = tgt.move(G.Vector(*[float(c) for c in mv["v"]]))
+        vv = tuple(mv["v"])
+        if case.get("ls", 0) % 3 == 0:
+            # two moves instead of one, with the same question asked in between
+            v1 = tuple(gen.F(int(c * 2) // 2) for c in vv)
+            if any(v1) and v1 != vv:
+                mu.cell("pose:via-two-moves")
+                tgt.move(G.Vector(*[float(c) for c in v1]))
+                try:
+                    ox in os_
+                except Exception:
+                    pass
+                vv = K.sub(vv, v1)
+        ret = tgt.move(G.Vector(*[float(c) for c in vv]))
         if mv["use"] == "returned":
             if mv["who"] == "container":
                 os_ = ret
